@@ -48,6 +48,9 @@ type Task struct {
 	PanicVal  any
 	PanicText string
 	vc        vclock
+	// stallUntil > Now(): the task is parked but frozen by an injected stall
+	// (a descheduled thread / slow node); not eligible until then.
+	stallUntil time.Duration
 }
 
 // Result codes of a run.
@@ -89,6 +92,23 @@ type Sched struct {
 	// race oracle
 	RaceOn   bool
 	Preempt  int // 1/Preempt of accesses become scheduling points (0 = never)
+	// Stall fault: with probability 1/StallOneIn the task chosen at a step is
+	// not resumed but frozen for a tape-chosen simulated duration (at most
+	// StallMax times per run). Everybody else runs on and simulated time may
+	// pass: this is what an OS pre-emption of one thread, or a slow party,
+	// looks like. 0 = never (the default: only worlds whose oracles do not
+	// depend on a task's promptness switch it on).
+	StallOneIn int
+	StallMax   int
+	Stalls     int
+	// StallLib extends the stall fault from the application's own threads
+	// (tasks the harness started: they call the library's API) to goroutines
+	// the library started itself (parser, input loop, timers, encoders).
+	StallLib bool
+	// StallOK, when set, further narrows which tasks may be frozen (a world
+	// keeps its own stubs - terminal, wire - out of it when their latency is
+	// a planned part of the case).
+	StallOK func(t *Task) bool
 	Races    []string
 	raceSeen map[string]bool
 	objVC    map[any]*vclock
@@ -292,11 +312,19 @@ func (s *Sched) Run() {
 		s.mu.Lock()
 		var elig []*Task
 		alive := 0
+		now := s.Now()
+		var nextThaw time.Duration // earliest end of a stall among frozen tasks (0 = none)
 		for _, t := range s.tasks {
 			switch t.state {
 			case stParked:
-				elig = append(elig, t)
 				alive++
+				if t.stallUntil > now {
+					if nextThaw == 0 || t.stallUntil < nextThaw {
+						nextThaw = t.stallUntil
+					}
+					continue
+				}
+				elig = append(elig, t)
 			case stWaiting:
 				alive++
 			case stRunning:
@@ -338,13 +366,20 @@ func (s *Sched) Run() {
 			// Nothing can run: block so that the bubble's clock can
 			// advance to the next timer. If nothing wakes for a very
 			// long simulated time, it is a deadlock.
-			tm := time.NewTimer(30 * time.Minute)
+			idle := 30 * time.Minute
+			if nextThaw > 0 {
+				idle = nextThaw - now
+			}
+			tm := time.NewTimer(idle)
 			select {
 			case <-s.wake:
 				tm.Stop()
 				idleWatch = 0
 				continue
 			case <-tm.C:
+				if nextThaw > 0 {
+					continue // a frozen task thaws now
+				}
 				idleWatch++
 				s.mu.Lock()
 				s.End = EndDeadlock
@@ -379,6 +414,23 @@ func (s *Sched) Run() {
 				d = 0
 			}
 			pick = elig[d]
+		}
+		if s.StallOneIn > 0 && s.Stalls < s.StallMax && (!pick.Lib || s.StallLib) && (s.StallOK == nil || s.StallOK(pick)) && s.Tape.Draw(s.StallOneIn) == 1 {
+			// freeze the chosen task instead of running it
+			unit := []time.Duration{20 * time.Microsecond, time.Millisecond, 15 * time.Millisecond, 70 * time.Millisecond}[s.Tape.Draw(4)]
+			d := unit/8 + time.Duration(s.Tape.Draw(8))*unit/8
+			pick.stallUntil = now + d
+			s.Stalls++
+			s.Probes["stall"]++
+			s.Steps++
+			Progress.Add(1)
+			s.mixInt(-pick.ID - 1)
+			s.mixInt(int(d))
+			if s.Logging {
+				s.Log = append(s.Log, fmt.Sprintf("%d t=%v STALL %d/%s for %v @%s", s.Steps, now, pick.ID, pick.Name, d, pick.site))
+			}
+			s.mu.Unlock()
+			continue
 		}
 		if pick != s.last {
 			s.Switches++
